@@ -219,5 +219,5 @@ def space(tier):
                            "token": rand_bytes(rng, 64).hex(), "key": rand_bytes(rng, 32).hex(),
                            "device_id": rand_id(rng)}, "scenario": rng.choice(["fresh", "stored"]), "alt": alt,
                 "expired": rng.random() < 0.4}
-    sp.add("random_keys", 8000 if tier == "quick" else 150_000, rnd)
+    sp.add("random_keys", 8000 if tier == "quick" else 1_500_000, rnd)
     return sp
